@@ -47,6 +47,12 @@ def build_tree(kw):
     # annotations: plain on the tree, plain on a node (symbolic value), bound to the node's own
     # attribute, bound to an attribute of another owner (the node's edge), plain on an edge
     tree.annotations.add_new("tname", kw["v0"])
+    tree.weight = kw["v0"]
+    tree.annotations.add_bound_attribute("weight")          # bound to an attribute of the tree itself
+    for x in nodes:
+        if x.taxon is not None:
+            x.taxon.annotations.add_new("tx", [kw["v1"], "m"])      # an annotation with a mutable value on a taxon
+            break
     nd = nodes[-1]
     nd.annotations.add_new("nplain", kw["v1"])
     nd.extra = kw["v2"]
@@ -65,7 +71,7 @@ def describe(tree):
         return [(a.name, a.value) for a in x.annotations]
 
     def rec(nd):
-        return (nd.taxon.label if nd.taxon is not None else None, nd.label, nd._edge.length, ann(nd), ann(nd._edge),
+        return ((nd.taxon.label, ann(nd.taxon)) if nd.taxon is not None else None, nd.label, nd._edge.length, ann(nd), ann(nd._edge),
                 list(nd.comments), getattr(nd, "extra", None), [rec(c) for c in nd._child_nodes])
     enc = None
     if tree.bipartition_encoding is not None:
@@ -82,6 +88,8 @@ def census(tree):
     nodes = tg.reachable(tree)
     ids = dict(nodes=set(id(x) for x in nodes), edges=set(id(x._edge) for x in nodes),
                taxa=set(id(x.taxon) for x in nodes if x.taxon is not None), ns=set([id(tree.taxon_namespace)]),
+               taxon_anns=(set(id(a) for x in nodes if x.taxon is not None for a in x.taxon.annotations) |
+                           set(id(a.value) for x in nodes if x.taxon is not None for a in x.taxon.annotations if isinstance(a.value, list))),
                anns=set(id(a) for x in nodes for a in list(x.annotations) + list(x._edge.annotations)) | set(id(a) for a in tree.annotations),
                annsets=set(id(x.annotations) for x in nodes), comments=set(id(x.comments) for x in nodes) | set([id(tree.comments)]))
     return ids
@@ -138,6 +146,8 @@ def c12_tree(kw):
     if route in DEEP:
         if c_src["taxa"] & c_cp["taxa"] or c_src["ns"] & c_cp["ns"]:
             return "deep-copy-shares-taxa-or-namespace"
+        if c_src["taxon_anns"] & c_cp["taxon_anns"]:
+            return "deep-copy-shares-taxon-annotations-or-their-values"
     else:
         if c_src["ns"] != c_cp["ns"]:
             return "scoped-copy-has-another-namespace"
@@ -204,6 +214,14 @@ def c12_tree(kw):
                     return "bound-annotation-does-not-follow-its-attribute"
                 if an.is_attribute and an.name == "elen" and an.value != nd.edge.length:
                     return "bound-annotation-does-not-follow-its-attribute"
+    if route != "extract":
+        # the tree's own bound annotation follows the attribute of the tree it sits on, on both sides
+        for obj, delta in ((cp, 1), (tree, 2), (cp, 3)):
+            obj.weight = kw["newv"] + delta
+            for x in (cp, tree):
+                for an in x.annotations:
+                    if an.is_attribute and an.name == "weight" and an.value != x.weight:
+                        return "tree-bound-annotation-does-not-follow-its-attribute"
     return True
 
 
@@ -285,7 +303,7 @@ def classify(inp):
     return "%s:labelset%s" % (inp.get("route"), inp.get("labelset"))
 
 
-BUDGET = dict(quick=220, thorough=1400)
+BUDGET = dict(quick=220, thorough=1000)
 
 
 def harnesses(tier):
